@@ -13,7 +13,9 @@ static void setup(Bufs &b, int k, int rows, size_t len, const kern::Placement &s
                   bool dispatched_tables) {
 	b.coef = guard::alloc_copy(coef.data(), coef.size(), guard::END, "coef");
 	guard::set_readonly(b.coef);
-	b.tbl = guard::alloc((size_t) 32 * k * rows, guard::END, "g_tbls");
+	// no alignment is documented for the tables: three cases in four start at an arbitrary byte offset (derived from the generated coefficients)
+	{ uint64_t h = 1469598103934665603ull; for (uint8_t x : coef) h = (h ^ x) * 1099511628211ull; h = pbt::mix64(h);
+	  b.tbl = guard::alloc((size_t) 32 * k * rows, guard::END, "g_tbls", 64, (h & 3) ? (size_t) ((h >> 2) % 64) : 0); }
 	if (dispatched_tables) ec_init_tables(k, rows, b.coef.p, b.tbl.p);
 	else build_tables(gfni, k, rows, b.coef.p, b.tbl.p);
 	guard::set_readonly(b.tbl);
